@@ -317,6 +317,8 @@ class Harness:
         self.done = False
         self.end_m2 = {}             # player -> was m2 live when this player's last ball began to end (None: unclear)
         self.m2_touch = {}           # player -> m2 start/stop events dispatched while that player was up since then
+        self.sq_due = {}             # player -> points earned in earlier balls that must have arrived at ball_started
+        self.sq_released = False     # ... and has stopped waiting (the ball end goes on whatever is queued now)
         self.sq_block = False        # the score queue's ball_ending handler has started (ball end waits for the queue)
         self.reload_race = {}        # mode -> it was started again before the clean-up of its previous stop ran
         self.ball_phase = "none"     # "ending" from ball_will_end until the next ball_will_start
@@ -396,11 +398,16 @@ class Harness:
             m.events.add_handler(name, mk(self.fire_armed_lo, name), priority=LO)
         # runs immediately before the score queue's own ball_ending handler (priority 1) starts to wait
         m.events.add_handler("ball_ending", self.sq_block_entered, priority=2)
+        # same priority as the queue's handler, registered later: runs right after that handler stopped waiting
+        m.events.add_handler("ball_ending", self.sq_block_left, priority=1)
         for ev, pr, ms in self.cfg["holds"]:
             m.events.add_handler(ev, self.mk_hold(ev, pr, ms), priority=(HI if pr == "hi" else LO) - 1)
 
     def sq_block_entered(self, **kwargs):
         self.sq_block = True
+
+    def sq_block_left(self, **kwargs):
+        self.sq_released = True
 
     def mk_hold(self, ev, pr, ms):
         def hold(queue=None, **kwargs):
@@ -579,6 +586,10 @@ class Harness:
                 msg = ("score queue added %r to player %r (player up: %r) who has %r undelivered queued points; "
                        "undelivered [certain, possible, queued after the ball end stopped waiting] per player: %r"
                        % (change, num, curp, pool, owed))
+                if not late and isinstance(change, int) and 0 < change <= self.dev.get("sq_prev", 0):
+                    self.dev["sq_prev"] -= change
+                    self.bad("unjustified_change", "score queued after ball_ending stopped waiting is credited to the next player",
+                             msg + " - points queued while the last ball of the previous game was ending went to a player of this game")
                 if late and isinstance(change, int) and change > 0:
                     self.bad("unjustified_change", "score queued after ball_ending stopped waiting is credited to the next player",
                              msg + " - the points player %d queued while his game mode was stopping went to player %r" % (late[0], num))
@@ -588,6 +599,8 @@ class Harness:
                 take = min(pool[i], rest)
                 pool[i] -= take
                 rest -= take
+                if i == 0 and take:      # the queue is FIFO: what was earned in earlier balls arrives first
+                    self.sq_due[num] = max(0, self.sq_due.get(num, 0) - take)
             ps = self.shadow(num)
             ps["vars"]["sq_pts"] = ps["vars"].get("sq_pts", 0) + change
             ctx.probe("sq_step")
@@ -685,7 +698,9 @@ class Harness:
         # A score queue entry keeps the ball from ending if it is queued before the queue's ball_ending handler
         # starts to wait, or while that handler is still waiting (queue not empty).  Once the handler has been
         # released (queue ran empty during ball_ending) a new entry is worked off after the ball ended.
-        self.dev["sq_gate"] = bool(self.sq_block and self.m.score_queues["sq_pts"]._score_queue_empty.is_set())
+        if self.sq_block and self.m.score_queues["sq_pts"]._score_queue_empty.is_set():
+            self.sq_released = True     # latched until the next ball: a later entry clears the flag again, too late
+        self.dev["sq_gate"] = self.sq_released
         if name in ("ev_m2_start", "ev_m2_stop"):
             self.m2_touch[self.cur["pnum"]] = self.m2_touch.get(self.cur["pnum"], 0) + 1
 
@@ -911,8 +926,11 @@ class Harness:
         ctx.log("life", name, curp, t=self.sim.now)
         self.phase = name
         g = self.m.game
+        if name == "ball_will_start" and curp is not None:
+            self.sq_due[curp] = self.dev["sq"].get(curp, [0, 0, 0])[0]
         if name in ("ball_will_end", "ball_will_start"):
             self.sq_block = False
+            self.sq_released = False
         if name == "ball_will_end":
             self.ball_phase = "ending"
         elif name in ("ball_will_start", "game_ended"):
@@ -928,7 +946,9 @@ class Harness:
             self.end_m2 = {}
             self.m2_touch = {}
             self.check_sq_delivered(None, "game_will_start")
+            self.dev["sq_prev"] = self.dev.get("sq_prev", 0) + sum(v[2] for v in self.dev["sq"].values())
             self.dev["sq"] = {}
+            self.sq_due = {}
             if self.game_no > 1:
                 ctx.probe("new_game")
         elif name == "player_added":
@@ -1014,8 +1034,15 @@ class Harness:
 
     def check_sq_delivered(self, num, where):
         """What a player earned through the score queue has arrived when his next ball starts / when the run ends."""
+        if num is not None:
+            # at ball_started: only what was earned in earlier balls (recorded at ball_will_start) must have arrived
+            if self.sq_due.get(num, 0) > 0:
+                self.bad("restore", "queued score never delivered to the player who earned it",
+                         "%s: player %d earned %d queued points (score_queue sq_pts) in earlier balls which have not "
+                         "arrived when his next ball starts" % (where, num, self.sq_due[num]))
+            return
         for q in sorted(self.dev["sq"]):
-            if (num is None or q == num) and self.dev["sq"][q][0] > 0:
+            if self.dev["sq"][q][0] > 0:
                 self.bad("restore", "queued score never delivered to the player who earned it",
                          "%s: player %d earned %d queued points (score_queue sq_pts) which never arrived"
                          % (where, q, self.dev["sq"][q][0]))
